@@ -1,25 +1,63 @@
 """property id -> units and reporting metadata (single source for MANIFEST.json)"""
-from units import specificity, best, fragments, static_list, hashing, vptrs, resolve, generator, handlers, virtual_ptr, deferred
+from units import (specificity, best, fragments, static_list, hashing, vptrs, resolve, generator, handlers,
+                   virtual_ptr, deferred, slots)
 
-A_TABLES = ('compiler::build_dispatch_tables (grouping of classes by applicability mask, strides, recursion order) '
-            'and assign_slots / assign_tree_slots / assign_lattice_slots are NOT under contract '
-            '(std::map<dynamic_bitset,...>, unordered_set, recursion over containers: out of reach of the C front end)')
-A_AUGMENT = ('compiler::augment_classes / calculate_covariant_classes / augment_methods are NOT under contract: '
-             'cov is taken as an arbitrary relation with the stated order axioms')
+A_TABLES = ('compiler::build_dispatch_tables (grouping of classes by applicability mask, stride products, recursion order, '
+            'v-table entry filling) is NOT under contract (std::map<dynamic_bitset,...>, recursion over containers): '
+            'I_table - "cell(g_0..g_n-1) is best() of the definitions applicable to the classes of those groups" - is assumed')
+A_AUGMENT = ('compiler::augment_classes / calculate_covariant_classes / augment_methods are NOT under contract (unordered_map keyed by '
+             'type_index, deque, std::sort, mark-and-sweep): cov is an arbitrary relation with the stated order axioms; '
+             'update-time lookups of unregistered classes are not checked')
+A_INSTALL = ('compiler::install_gv (copy of tables / v-tables / slots and strides into the policy\'s dispatch data) is NOT under contract: '
+             'the layout invariant I_layout the resolve proofs assume is what it is documented to install')
 
 NOT_APPLICABLE = {
     'C08': 'inheritance inference is an mp11 metaprogram plus unordered_map / deque / std::sort code in augment_classes; '
            'no function within CBMC\'s C subset carries the property, a rule-based C translation would be a hand model (DESIGN.md section 7)',
     'C11': 'argument adjustment is static_cast / dynamic_cast / std::forward / shared_ptr ownership in thunk templates: '
            'C++ language semantics with no body in the verifier\'s language (DESIGN.md section 7)',
+    'C13': 'the encoder is a sequence of ostream insertions producing C++ source text and the decoder works in place on that text\'s arrays '
+           'with alloca and lambdas; a bounded C extraction was planned (DESIGN.md section 6 C13) and not built in this round: not claimed',
     'C14': 'policy isolation is the identity of template static data members and mp11 rebind/replace/remove; in the C extraction '
-           'a policy\'s statics are one struct by construction, so no contract can confirm or refute sharing (DESIGN.md section 7)',
+           'a policy\'s statics are one set of globals by construction, so no contract can confirm or refute sharing (DESIGN.md section 7)',
     'C19': 'name extraction is std::regex and std::string / std::set iterator code writing to an ostream; outside the C subset '
            '(a bounded stand-in was considered and not built) (DESIGN.md section 7)',
     'C20': 'pure template metaprogramming (mp_product, aggregate splitting); nothing executes at run time except add_function (DESIGN.md section 7)',
 }
 
+T_SHAPES = ('partial evaluator instantiating the resolve / handler templates per signature shape and facet set; '
+            'loop-free CBMC proof per configuration')
+
 PROPS = {
+    'C01': {
+        'units': [specificity.jobs, best.jobs, fragments.jobs, hashing.jobs, vptrs.jobs, resolve.jobs, slots.jobs],
+        'level': 'proof',
+        'technique': 'CBMC/DFCC function + loop contracts on extracted is_more_specific; ' + T_SHAPES +
+                     ' for method::resolve*; contracts on the v-table pointer lookups; bounded CBMC on best(), the cell step and slot allocation',
+        'level_text': 'The documented ordering (is_more_specific) is proved for every class graph and arity <= 16. For every signature shape over '
+                      '{virtual_, virtual_ptr, non-virtual} up to length 4 (thorough: 5) and every facet set, the real resolve templates - instantiated '
+                      'by a partial evaluator - are proved to return exactly the cell selected by the groups of the virtual arguments, given the installed '
+                      'layout. dynamic_vptr / publish_vptrs (vector with and without hash, map) deliver the dynamic class\'s v-table pointer. best(), the '
+                      'cell-filling step and slot allocation are checked bounded.',
+        'level_note': 'that update builds tables and v-tables satisfying the layout invariant (build_dispatch_tables, install_gv) is assumed, not proved; '
+                      'bounded parts are not proofs; STL semantics trusted',
+        'design_ref': 'DESIGN.md section 6 C01',
+        'unverified': [A_TABLES, A_AUGMENT, A_INSTALL],
+        'assumptions': [],
+    },
+    'C02': {
+        'units': [handlers.jobs, fragments.jobs],
+        'level': 'proof',
+        'technique': T_SHAPES + ' for not_implemented_handler / ambiguous_handler / get_tip / collect_tip; contract on the deprecated call-error forwarder; bounded cell step',
+        'level_text': 'For every signature shape (length <= 4, thorough 5, plus 17- and 18-parameter signatures for the max_types clamp) both handlers are proved to '
+                      'call the policy\'s error handler exactly once with the right status, arity = number of virtual parameters and the dynamic type ids of exactly the '
+                      'virtual arguments in order, and never to return (abort follows). The deprecated forwarder passes the same data to call_error. The cell step puts '
+                      'the method\'s own error entries into unresolvable cells (bounded).',
+        'level_note': 'propagation of an exception thrown by the handler through operator() is C++ semantics outside the extracted code; table construction assumed',
+        'design_ref': 'DESIGN.md section 6 C02',
+        'unverified': [A_TABLES, 'exception propagation when the handler throws (no try / catch / noexcept on the path - not checked mechanically)'],
+        'assumptions': [],
+    },
     'C03': {
         'units': [specificity.jobs, best.jobs, fragments.jobs],
         'level': 'proof',
@@ -35,6 +73,130 @@ PROPS = {
         'unverified': [A_AUGMENT, 'macros.hpp / add_function plumbing of the next variable'],
         'assumptions': [],
     },
+    'C04': {
+        'units': [slots.jobs, resolve.jobs, vptrs.jobs],
+        'level': 'proof',
+        'technique': T_SHAPES + ' with bounds / pointer checks and a checked word-to-pointer shim for every read of the call path; '
+                     'bounded CBMC over every inheritance DAG for assign_slots / assign_tree_slots / assign_lattice_slots',
+        'level_text': 'Every read of every resolve configuration (and of dynamic_vptr) is proved to stay inside the policy\'s dispatch data / v-table pointer vector '
+                      '(CBMC bounds and pointer obligations; a v-table word used as an address must address a dispatch-data cell). Slot allocation is checked '
+                      'bounded over EVERY inheritance DAG of <= 3/4 classes in every registration order: two (method, parameter) pairs that accept a class never '
+                      'share a cell of its v-table and every cell lies inside it.',
+        'level_note': 'slot allocation is bounded, not proved, and takes the lattice data as augment_classes computes it from COMPLETE base lists (incremental / split '
+                      'registrations are C08, not claimed); sizing and filling of the dispatch data (install_gv) assumed',
+        'design_ref': 'DESIGN.md section 6 C04',
+        'unverified': [A_INSTALL, A_AUGMENT, 'unordered_set iteration order in assign_lattice_slots: one order explored'],
+        'assumptions': [],
+    },
+    'C05': {
+        'units': [hashing.jobs, vptrs.jobs],
+        'level': 'proof',
+        'technique': 'hash search cut at its loop boundaries into loop-free inductive obligations (base / step / exit) over a Skolem id and a Skolem bucket, CBMC; '
+                     'DFCC contracts on lookups and wrappers; bit-precise lemmas for the multiply-shift; bounded whole-function run',
+        'level_text': 'For ANY number of buckets and any prior value of the statics that survive between updates, with the RNG nondeterministic: if hash_initialize returns, '
+                      'every registered id sits in the bucket its hash selects (hence distinct ids get distinct indexes), inside the table and <= hash_max < hash_length; '
+                      'otherwise a hash_search_error is reported and it does not return. The checked wrapper sizes the control table to hash_length, the checked lookup '
+                      'returns only for ids that pass the range / identity test, and (lemma) those are registered ids. publish_vptrs stores each class\'s v-table pointer '
+                      '(and its address) at the index of every one of its ids, all four facet combinations.',
+        'level_note': 'the inductive obligations are discharged per loop-free segment; their composition relies on the loop skeleton having the expected shape (checked '
+                      'textually each run) and is exercised by a bounded whole-function job; multiply-shift is uninterpreted inside the obligations (lemmas L1/L2 on the '
+                      'real expressions); class arena of 16 classes x <= 3 ids in the step obligations; ids == (type_id)-1 excluded',
+        'design_ref': 'DESIGN.md section 6 C05',
+        'unverified': ['std::default_random_engine / uniform_int_distribution (replaced by nondeterminism)'],
+        'assumptions': [],
+    },
+    'C06': {
+        'units': [best.jobs, specificity.jobs, slots.jobs],
+        'level': 'proof',
+        'technique': 'lemma over best()\'s contract (outcome is a function of the candidate set), purity contracts of the comparators, bounded CBMC on best() over all '
+                     'candidate orders and on slot allocation over all class registration orders',
+        'level_text': 'Order can reach dispatch through best()\'s incremental elimination and through slot / group numbering. best() is checked for every order of <= 4/5 candidates '
+                      'against postconditions that only mention the candidate set; a lemma proves that any two results satisfying them agree on no-definition / definition / '
+                      'ambiguous and on the winner. is_more_specific / is_base are proved to be pure functions of their arguments. Slot allocation is checked for every '
+                      'registration order of the classes (every DAG) for the uniqueness C04 needs.',
+        'level_note': 'that different group numberings yield the same cell contents needs the unproved table construction; method and definition order inside '
+                      'build_dispatch_tables not covered',
+        'design_ref': 'DESIGN.md section 6 C06',
+        'unverified': [A_TABLES, A_AUGMENT],
+        'assumptions': [],
+    },
+    'C07': {
+        'units': [static_list.jobs, hashing.jobs, vptrs.jobs, deferred.jobs],
+        'level': 'proof',
+        'technique': 'Skolem-heap contracts on the registration lists, hash / vptr obligations proved from arbitrary prior values of every surviving static, '
+                     'bounded CBMC on deferred-id resolution over repeated updates',
+        'level_text': 'What survives between updates is covered piece by piece: the catalogs hold exactly the live registrations after any push / remove (proved, any length); '
+                      'hash parameters, control table, vptr vector / map are re-established from ARBITRARY prior contents (stale hash_max can only enlarge the table; stale map '
+                      'entries are overwritten); deferred ids are resolved exactly once over 1..3 consecutive updates (bounded layouts).',
+        'level_note': 'that the compile phase is a function of the catalogs only is not under contract; real shared-library unloading not modelled',
+        'design_ref': 'DESIGN.md section 6 C07',
+        'unverified': [A_TABLES, A_AUGMENT, A_INSTALL],
+        'assumptions': [],
+    },
+    'C09': {
+        'units': [virtual_ptr.jobs, resolve.jobs, vptrs.jobs],
+        'level': 'proof',
+        'technique': 'loop-free CBMC proofs of the extracted virtual_ptr constructor / final / _vptr / copy constructors per facet set, on top of the '
+                     'publish_vptrs contract; resolve proofs treat virtual_ptr and virtual_ positions alike',
+        'level_text': 'For every facet set (hash none / fast / checked, direct / indirect, const-qualified class) the constructor embeds the v-table pointer published for the '
+                      'pointee\'s DYNAMIC class - or, indirect, the address of that class\'s static v-table pointer variable, so the pointer follows later updates; final embeds the '
+                      'static type\'s; copies copy. The resolve proofs show a virtual_ptr position and a virtual_ position reach the same cell from the same v-table pointer.',
+        'level_note': 'shared_ptr flavours, make_virtual_shared, cast<>() and get/*/-> are C++ conversions outside the extracted code',
+        'design_ref': 'DESIGN.md section 6 C09',
+        'unverified': ['virtual_shared_ptr / make_virtual_shared / cast (templates over std::shared_ptr)'],
+        'assumptions': [],
+    },
+    'C10': {
+        'units': [deferred.jobs, vptrs.jobs, hashing.jobs],
+        'level': 'proof',
+        'technique': 'bounded CBMC on extracted resolve_static_type_ids over concrete registry layouts; publish / hash obligations quantify over every id of every class',
+        'level_text': 'The flavours differ in how ids are obtained (templates, out of reach), in deferred resolution (checked bounded: every deferred id of every record is '
+                      'resolved exactly once for arity 1..3, shared or distinct lists, 1..3 updates) and in one-class-many-ids (publish_vptrs and the hash are proved for every id '
+                      'of every class).',
+        'level_note': 'class identity through Policy::type_index in augment_* is not under contract; deferred check is bounded',
+        'design_ref': 'DESIGN.md section 6 C10',
+        'unverified': [A_AUGMENT, 'id acquisition templates (std_rtti, minimal_rtti, custom static_type)'],
+        'assumptions': [],
+    },
+    'C12': {
+        'units': [generator.jobs, resolve.jobs],
+        'level': 'proof',
+        'technique': T_SHAPES + ' with static offsets and runtime checks on; bounded CBMC (arity <= 8) on extracted write_static_offsets',
+        'level_text': 'The consumer defines the layout: the resolve proofs read slot k at slots_strides[k] and stride k at [arity + k - 1]. write_static_offsets is checked '
+                      '(arity <= 8 >= the property\'s 1..4) to emit exactly those numbers position by position. With static offsets and runtime checks the resolve templates are '
+                      'proved to return the same cell when the static numbers equal the installed ones and to report a static slot / stride error, never returning, otherwise.',
+        'level_note': 'that a compiler accepts the emitted text and demangle() names the method is not covered; static-offset configurations cover shapes without virtual_ptr',
+        'design_ref': 'DESIGN.md section 6 C12',
+        'unverified': ['compilability of the generated header', A_INSTALL],
+        'assumptions': [],
+    },
+    'C15': {
+        'units': [hashing.jobs, virtual_ptr.jobs],
+        'level': 'proof',
+        'technique': 'DFCC contract on the checked lookup + rejection lemma; loop-free proofs of the checked virtual_ptr constructor and final',
+        'level_text': 'Call time: the checked hash returns only for ids that pass the range / identity test and (lemma from checked hash_initialize\'s postcondition) those are '
+                      'registered; any other id is reported once as unknown_class_error with that id and the lookup does not return, before the vptr vector is read. The checked '
+                      'virtual_ptr constructor reports an unregistered dynamic class on BOTH routes (lookup and exact-static-type shortcut, also with a stale static vptr); final '
+                      'reports a dynamic != static mismatch as method_table_error.',
+        'level_note': 'update-time diagnosis of unregistered bases / parameters (augment_classes / augment_methods) is not under contract; smart-pointer flavours of final not modelled',
+        'design_ref': 'DESIGN.md section 6 C15',
+        'unverified': [A_AUGMENT],
+        'assumptions': [],
+    },
+    'C16': {
+        'units': [resolve.jobs, vptrs.jobs, hashing.jobs, virtual_ptr.jobs, specificity.jobs],
+        'level': 'proof',
+        'technique': 'frame conditions: DFCC assigns() clauses, Skolem-word frame assertions and a syntactic frame check on every function of the call path; '
+                     'functional postconditions make each result a function of arguments and read-only statics',
+        'level_text': 'The guarantee rests on the call path being read-only. Every resolve configuration, dynamic_vptr (vector, map), both hash lookups, _vptr and the virtual_ptr '
+                      'constructors are proved to write nothing but their own locals / the object under construction, and their results are functions of their arguments and the '
+                      'statics they only read. Concurrent calls therefore perform no conflicting access (no data race under [intro.races]) and return the sequential answers.',
+        'level_note': 'this is a proof of the sufficient condition, not an exploration of interleavings; the C++ memory model for concurrent reads and isolation from another '
+                      'policy\'s update (C14, not claimed) are assumed',
+        'design_ref': 'DESIGN.md section 6 C16',
+        'unverified': ['C++ memory model', 'another policy\'s update touches only that policy\'s statics (C14)'],
+        'assumptions': [],
+    },
     'C17': {
         'units': [fragments.jobs],
         'level': 'proof',
@@ -45,7 +207,7 @@ PROPS = {
                       'concrete class, and the flag is threaded through the recursive call',
         'level_note': 'that cells are in bijection with tuples of class groups and dispatch_table.size() == cells (recursion over std::map) is not under contract',
         'design_ref': 'DESIGN.md section 6 C17',
-        'unverified': [A_TABLES, 'cells / concrete_cells products (compiler.hpp:863-890)'],
+        'unverified': [A_TABLES, 'cells / concrete_cells products'],
         'assumptions': [],
     },
     'C18': {
@@ -55,59 +217,9 @@ PROPS = {
         'level_text': 'push_back, remove, begin, ++ and empty (real bodies, extracted each run) are proved for lists of ANY length: the list invariant is '
                       'assumed at the nodes the loop-free operation can reach plus a Skolem position and re-established for the new sequence, with frame. '
                       'clear() (a loop over the whole list) and the interplay of all operations are checked on a pool of 5/6 nodes (every list, every order, one operation)',
-        'level_note': 'clear() is bounded only; size() = std::distance is trusted; that the registration objects\' destructors call remove on the right catalog is checked textually only',
+        'level_note': 'clear() is bounded only; size() = std::distance is trusted; that the registration objects\' destructors call remove on the right catalog is not checked',
         'design_ref': 'DESIGN.md section 6 C18, 2.7',
         'unverified': ['class_declaration_aux / method / definition_info constructors and destructors calling push_back / remove (templates)', 'real dlclose timing'],
-        'assumptions': [],
-    },
-    'C05': {
-        'units': [hashing.jobs, vptrs.jobs],
-        'level': 'proof',
-        'technique': 'CBMC/DFCC function and loop contracts on the extracted hash search, lookups and publish_vptrs; bit-precise lemmas for the multiply-shift',
-        'level_text': 'TBD',
-        'level_note': 'TBD',
-        'design_ref': 'DESIGN.md section 6 C05',
-        'unverified': [],
-        'assumptions': [],
-    },
-    'C01': {
-        'units': [specificity.jobs, best.jobs, fragments.jobs, hashing.jobs, vptrs.jobs, resolve.jobs],
-        'level': 'proof',
-        'technique': 'TBD', 'level_text': 'TBD', 'level_note': 'TBD',
-        'design_ref': 'DESIGN.md section 6 C01',
-        'unverified': [A_TABLES, A_AUGMENT],
-        'assumptions': [],
-    },
-    'C12': {
-        'units': [generator.jobs, resolve.jobs],
-        'level': 'proof',
-        'technique': 'TBD', 'level_text': 'TBD', 'level_note': 'TBD',
-        'design_ref': 'DESIGN.md section 6 C12',
-        'unverified': [],
-        'assumptions': [],
-    },
-    'C02': {
-        'units': [handlers.jobs, fragments.jobs],
-        'level': 'proof',
-        'technique': 'TBD', 'level_text': 'TBD', 'level_note': 'TBD',
-        'design_ref': 'DESIGN.md section 6 C02',
-        'unverified': [],
-        'assumptions': [],
-    },
-    'C09': {
-        'units': [virtual_ptr.jobs, resolve.jobs, vptrs.jobs],
-        'level': 'proof',
-        'technique': 'TBD', 'level_text': 'TBD', 'level_note': 'TBD',
-        'design_ref': 'DESIGN.md section 6 C09',
-        'unverified': [],
-        'assumptions': [],
-    },
-    'C10': {
-        'units': [deferred.jobs, vptrs.jobs, hashing.jobs],
-        'level': 'proof',
-        'technique': 'TBD', 'level_text': 'TBD', 'level_note': 'TBD',
-        'design_ref': 'DESIGN.md section 6 C10',
-        'unverified': [],
         'assumptions': [],
     },
 }
